@@ -36,13 +36,15 @@ Definition demo_calls : list call := [
   mkcall "vecbasic_get" [AV 0; AZ 0; AB 3];
   mkcall "mapbasicbasic_insert" [AM 0; AB 0; AB 1];
   mkcall "mapbasicbasic_get" [AM 0; AB 0; AB 2];
-  mkcall "vecbasic_get" [AV 0; AZ 1; AB 3]              (* out of range: unchecked access, the run stops *)
+  mkcall "vecbasic_get" [AV 0; AZ 1; AB 3];             (* out of range: error code *)
+  mkcall "rational_set_si" [AB 3; AZ 1; AZ 0];          (* zero denominator: error code, no C++ call *)
+  mkcall "setbasic_get" [AS 0; AZ 2; AB 3]              (* out of range: unchecked access, the run stops *)
 ].
 
 Example C42_demo_run :
   map fst (run demo_core cwrap_table 0 (init_state 4 1 1 1) demo_calls)
   = [RetCode 0; RetCode 0; RetCode SYMENGINE_PARSE_ERROR; RetCode 0; RetInt 1; RetInt 1; RetInt 0; RetInt 1;
-     RetCode 0; RetCode 0; RetVoid; RetInt 1; MemErr 1 1]
+     RetCode 0; RetCode 0; RetVoid; RetInt 1; RetCode SYMENGINE_RUNTIME_ERROR; RetCode SYMENGINE_DIV_BY_ZERO; MemErr 2 2]
   /\ (* argument order of basic_sub: tag 13 = (x, 3) *)
   option_map vtag (nth_error (s_b (snd (nth 3 (run demo_core cwrap_table 0 (init_state 4 1 1 1) demo_calls)
                                            (Unmodelled, init_state 0 0 0 0)))) 2) = Some 13%N.
